@@ -265,6 +265,9 @@ func (m *ModSets) callArgMods(fn *ssa.Function, call *ssa.CallCommon, lib bool) 
 		}
 		if lib {
 			if s, ok := a.Type().Underlying().(*types.Slice); ok {
+				if _, isIface := s.Elem().Underlying().(*types.Interface); isIface {
+					continue // ...interface{} arguments (formatting, logging) are assumed to be read only
+				}
 				if !pureLibCall(call) {
 					out = append(out, m.regElem(s.Elem()))
 				}
@@ -353,10 +356,19 @@ func (m *ModSets) compute() {
 			for _, in := range b.Instrs {
 				switch x := in.(type) {
 				case *ssa.Store:
+					if freshRoot(x.Addr) {
+						// store into an object allocated by this very call: invisible in the caller's pre-state
+						m.addrComps(fn, x.Addr) // (registers the component sorts)
+						continue
+					}
 					for _, c := range m.addrComps(fn, x.Addr) {
 						d[c] = true
 					}
 				case *ssa.MapUpdate:
+					if _, ok := x.Map.(*ssa.MakeMap); ok {
+						m.regMap(x.Map.Type())
+						continue
+					}
 					for _, c := range m.regMap(x.Map.Type()) {
 						d[c] = true
 					}
@@ -553,4 +565,31 @@ func (m *ModSets) modsVisible(callee, fn *ssa.Function) []string {
 	}
 	sort.Strings(out)
 	return out
+}
+
+// freshRoot: the address is a field/element path into an object allocated in the same function
+// (new(T), &T{...}, a local array, make([]T, n)) - directly, without passing through the heap or a phi.
+func freshRoot(addr ssa.Value) bool {
+	for depth := 0; depth < 16; depth++ {
+		switch x := addr.(type) {
+		case *ssa.FieldAddr:
+			addr = x.X
+		case *ssa.IndexAddr:
+			addr = x.X
+		case *ssa.Slice:
+			addr = x.X
+		case *ssa.Alloc:
+			// struct / array allocation (cells of scalars are handled as locals anyway)
+			switch deref(x.Type()).Underlying().(type) {
+			case *types.Struct, *types.Array:
+				return true
+			}
+			return false
+		case *ssa.MakeSlice:
+			return true
+		default:
+			return false
+		}
+	}
+	return false
 }
